@@ -121,6 +121,7 @@ def run(model: Model, rep: Report, tier: str) -> None:
     )
     rep.trusted_base = ["Shpitser & Pearl 2008, Lemmas 24/25", "C14 (subgraph, ancestors_inclusive, from_edges)"]
     rep.floors = {"R18.1": 3, "R18.3": 1, "R18.4": 12, "R18.5": 2}
+    r18_renaming_follows_merge(model, rep)
     load_reference(model, REF, "c18_ref.py")
     sa = SetAlg(rewriter(graph_rewrite, c18_rewrite))
     from .. import nxden
@@ -153,6 +154,86 @@ def run(model: Model, rep: Report, tier: str) -> None:
             problems.append("the kept / dropped nodes it reports are not the two nodes it was given")
     (rep.refuted if problems else rep.proven)("R18.5", construct(fm, "returns-its-nodes"), "; ".join(sorted(set(problems))), loc(fm))
     r18_predicates(model, rep)
+
+
+def r18_renaming_follows_merge(model: Model, rep: Report) -> None:
+    """R18.6: the pair handed to the event renaming is the pair the merge returned.
+
+    Def-use over every routine of the module that calls the renamer: the names passed as (kept, dropped) must be bound, at every
+    binding in that routine, by unpacking positions 1 and 2 of a call of the merge routine.  The merge removes `dropped` from the
+    graph; renaming any other pair leaves the event speaking of a node the graph no longer has (or moves the value the wrong way).
+    REFUTED only when no binding of the name comes from the merge; anything the def-use cannot classify is left UNKNOWN.
+    """
+    merge = model.func(f"{CG}.merge_pw")
+    renamer = model.func(f"{CG}.update_event")
+    rparams = renamer.params
+    sites = 0
+    for f in model.funcs_in_module(CG):
+        calls = [n for n in ast.walk(f.node) if isinstance(n, ast.Call) and isinstance(n.func, ast.Name)
+                 and model.resolve_name(f.module, n.func.id) is renamer]
+        if not calls:
+            continue
+        # bindings of plain names in f: name -> list of ("merge", position) | ("other", line)
+        binds: dict[str, list[tuple[str, int]]] = {}
+        for p in f.params:
+            binds.setdefault(p, []).append(("param", f.node.lineno))
+        for n in ast.walk(f.node):
+            tgts, val = [], None
+            if isinstance(n, ast.Assign):
+                tgts, val = n.targets, n.value
+            elif isinstance(n, (ast.AnnAssign, ast.AugAssign)) and n.value is not None:
+                tgts, val = [n.target], n.value
+            elif isinstance(n, (ast.For, ast.comprehension)):
+                tgts, val = [n.target], None
+            elif isinstance(n, ast.NamedExpr):
+                tgts, val = [n.target], n.value
+            is_merge = (isinstance(val, ast.Call) and isinstance(val.func, ast.Name) and model.resolve_name(f.module, val.func.id) is merge)
+            for t in tgts:
+                if isinstance(t, (ast.Tuple, ast.List)):
+                    for i, e in enumerate(t.elts):
+                        for nm in ast.walk(e):
+                            if isinstance(nm, ast.Name):
+                                binds.setdefault(nm.id, []).append(("merge", i) if is_merge and isinstance(e, ast.Name) else ("other", n.lineno if hasattr(n, "lineno") else f.node.lineno))
+                else:
+                    for nm in ast.walk(t):
+                        if isinstance(nm, ast.Name):
+                            binds.setdefault(nm.id, []).append(("other", getattr(n, "lineno", f.node.lineno)))
+        for c in calls:
+            sites += 1
+            args: dict[str, ast.expr] = {}
+            for i, a in enumerate(c.args):
+                if i < len(rparams):
+                    args[rparams[i]] = a
+            for k in c.keywords:
+                if k.arg:
+                    args[k.arg] = k.value
+            role = f"renames-merged-pair@{sites}"
+            verdict, why = "proven", ""
+            for pos, pname in ((1, rparams[1]), (2, rparams[2])) if len(rparams) >= 3 else ():
+                a = args.get(pname)
+                if not isinstance(a, ast.Name):
+                    verdict, why = "unknown", f"argument `{pname}` is not a plain name"
+                    break
+                bs = binds.get(a.id, [])
+                kinds = {b for b in bs if b[0] == "merge"}
+                if bs and all(b == ("merge", pos) for b in bs):
+                    continue
+                if not kinds:
+                    if any(b[0] == "param" for b in bs):
+                        verdict, why = "unknown", f"`{a.id}` is a parameter of the routine"
+                    else:
+                        verdict, why = "refuted", (f"the event is renamed with `{a.id}` as its {'kept' if pos == 1 else 'dropped'} node, which is never bound to what "
+                                                   f"{merge.name} returned (bound at line {bs[0][1] if bs else '?'}); {merge.name} decides which of the two nodes "
+                                                   "survives in the graph, and the event must follow that choice")
+                    break
+                if any(b[0] == "merge" and b[1] != pos for b in bs):
+                    verdict, why = "refuted", f"`{a.id}` is position {sorted(b[1] for b in kinds)} of {merge.name}'s result but is used as the {'kept' if pos == 1 else 'dropped'} node"
+                    break
+                verdict, why = "unknown", f"`{a.id}` is bound both from {merge.name} and otherwise"
+                break
+            getattr(rep, verdict)("R18.6", construct(f, role), why, loc(f, c.lineno))
+    if not sites:
+        raise AnalysisError(f"R18.6: no call of {renamer.qname} found in {CG}")
 
 
 def r18_predicates(model: Model, rep: Report) -> None:
